@@ -977,11 +977,14 @@ func c10ProtoCode(c *Ctx) {
 				if st.Val == ssa.Value(conv) {
 					continue
 				}
-				k, isK := ConstInt(st.Val)
-				if !isK || (k != 0 && k != 400) {
-					okConst = false
+				// (the constant itself, or what a helper of the package returns in that position: code = failCode)
+				for _, t := range ThroughReturns(st.Val) {
+					k, isK := ConstInt(t)
+					if !isK || (k != 0 && k != 400) {
+						okConst = false
+					}
+					ks = append(ks, k)
 				}
-				ks = append(ks, k)
 			}
 			c.Check(okConst, "O10.3", key+":codes-without-a-call", fn.Pos(), fmt.Sprintf("codes stored without an RPC: %v (allowed: 0 = not sent, 400 = payload rejected)", ks))
 		}
